@@ -1581,19 +1581,6 @@ class StateEngine(object):
                             )
 
                             """
-                            Tidy up self.branch_metadata for current execution_arn
-                            before republishing the state event. This only
-                            applies when the state being retried is itself a
-                            Parallel or Map state, whose branches have been
-                            terminated. Retrying a state *inside* a branch
-                            must leave the results and held events of its
-                            sibling branches alone.
-                            """
-                            if (execution_arn in self.branch_metadata and
-                                state.get("Type") in ("Parallel", "Map")):
-                                self.check_pending_results(execution_arn)
-
-                            """
                             Republish the Task state event with the new
                             RetryCount and RetryTimeout set. We also adjust
                             EnteredTime above. The ASL spec is unclear on
@@ -1609,6 +1596,23 @@ class StateEngine(object):
                             """
                             self.event_dispatcher.publish(event)
                             retry_matched = True
+
+                            """
+                            Tidy up self.branch_metadata for current execution_arn
+                            now that the state event has been republished. This
+                            only applies when the state being retried is itself
+                            a Parallel or Map state, whose branches have been
+                            terminated. Retrying a state *inside* a branch
+                            must leave the results and held events of its
+                            sibling branches alone. The tidy up acknowledges
+                            the events held for the terminated branches, so it
+                            must follow the publish: until the retry event is
+                            on the queue the held events are all that a restart
+                            could resume the execution from.
+                            """
+                            if (execution_arn in self.branch_metadata and
+                                state.get("Type") in ("Parallel", "Map")):
+                                self.check_pending_results(execution_arn)
 
                         break
 
